@@ -21,7 +21,7 @@ def prebuild(ctx):
     import sys
     sys.path.insert(0, os.path.join(C.VERIF, "harness", "translate"))
     import py2coq_core
-    py2coq_core.prebuild(ctx, C, ["Hypervolume.dominates", "Hypervolume.swap", "Hypervolume.surface_unchanged_to", "Hypervolume.reduce_set"])
+    py2coq_core.prebuild(ctx, C, ["Hypervolume.dominates", "Hypervolume.swap", "Hypervolume.surface_unchanged_to", "Hypervolume.reduce_set", "Hypervolume.filter_nondominated"])
 
 
 META = {
